@@ -98,7 +98,14 @@ void run_width(const Case &c, pbt::Ctx &ctx) {
         }
     };
     // every proper prefix (at unit level: also cuts inside multi-unit characters)
+    // (documents longer than 1500 units - a numeral of thousands of digits - would make this quadratic: the first and last 300
+    // prefixes and an even stride of about a thousand in between are taken instead, and the case is labelled)
+    const size_t stride = units.size() > 1500 ? units.size() / 1000 + 1 : 1;
+    ctx.label("prefix-variants-strided", stride > 1);
     for (size_t n = 0; n < units.size(); ++n) {
+        if (stride > 1 && n > 300 && n + 300 < units.size() && (n % stride) != 0) {
+            continue;
+        }
         jm::Units p(units.begin(), units.begin() + long(n));
         must_reject(p, "prefix-accepted", "proper prefix of length " + std::to_string(n));
     }
